@@ -226,7 +226,7 @@ def spell(rule_id, spelling, lang="py"):
     return ""  # bare
 
 
-def apply_directive(lines, form, anchor, out_anchor, name, c, placement, span=1):
+def apply_directive(lines, form, anchor, out_anchor, name, c, placement, span=1, decoy=None):
     """Insert the directive; -> (new lines, shift function old_line -> new_line, scope predicate on OLD line numbers)."""
     lines = list(lines)
     bracket = f"[{name}]" if name else ""
@@ -251,6 +251,11 @@ def apply_directive(lines, form, anchor, out_anchor, name, c, placement, span=1)
         return lines, (lambda l: l + 1 if tgt <= l <= last else (l + 2 if l > last else l)), (lambda l: tgt <= l <= last)
     if form == "file":
         at = 1 if placement == "in" else 12
+        if decoy and placement == "in":
+            # a header with two directives: the first names a linter of another language, the second the rule under test
+            lines.insert(0, f"{c} thailint: ignore-file[{decoy}]")
+            lines.insert(1, f"{c} thailint: ignore-file{bracket}")
+            return lines, (lambda l: l + 2), (lambda l: True)
         lines.insert(at - 1, f"{c} thailint: ignore-file{bracket}")
         return lines, (lambda l: l + 1 if l >= at else l), ((lambda l: True) if placement == "in" else (lambda l: False))
     raise ValueError(form)
@@ -347,7 +352,8 @@ def check(case) -> Case:
                 name = spell(named_rule, sp, lang)
                 if name is None or (sp == "bare" and naming == "other"):
                     continue
-                new_lines, shift, in_scope = apply_directive(src_lines, form, anchor, out_anchor, name, c, placement, span=5 if fam == "dry" else 1)
+                decoy = ("lbyl" if lang == "rs" else "unwrap-abuse") if sp in ("prefix", "upper", "alias", "title") and name else None
+                new_lines, shift, in_scope = apply_directive(src_lines, form, anchor, out_anchor, name, c, placement, span=5 if fam == "dry" else 1, decoy=decoy)
                 newfiles = dict(files)
                 newfiles[main] = "\n".join(new_lines) + "\n"
                 if sp == "bare":
